@@ -7,7 +7,14 @@
 2. The SAME configurations are run through the real EngineLineCropper.crop() (get_crop_inputs / fast_remap / cv2.remap
    observed from outside) and every recorded call is validated by TLC against Cropper_Trace: property level = verdict,
    exact level = MODEL-DRIFT only, Legacy=TRUE level = does the modelled defect explain the tree (information only).
-NOT covered: geometric sampling of slanted / curved baselines, pixel values at fractional positions (see notes/C10.md).
+3. SESSIONS (history and scale; sampled, not enumerated by TLC): baselines of 2 .. some thousand points (dense polylines across
+   64 / 128 / 256 / 512 / 1024 points) are cropped by LONG-LIVED EngineLineCropper / LineCropper objects of several configurations
+   one after the other (three interpolation orders, two scales, a configuration used before again, some calls right after a call
+   that fails on an out-of-scope line); every call is validated by the same Cropper_Trace - TLC evaluates Degenerate / WidthOK /
+   EndsClause on the recorded points themselves (no oracle in Python).  Every recorded call (all families) also carries the corners
+   of the coordinate grid: clause 11 = the band starts at the first and ends at the last baseline point (3 px along the chord).
+NOT covered: geometric sampling of slanted / curved baselines between the end points, pixel values at fractional positions
+(see notes/C10.md).
 """
 import re
 
@@ -21,7 +28,7 @@ INV_SKEL = ["BlankOnlyDegenerate", "HeightConfigured", "WidthClause"]
 INV_GRID = INV_SKEL + ["RowMappingExact", "FastEqualsGeneral", "ShiftInvariant"]
 
 CLAUSES = {1: "height", 2: "width-of-returned-array", 3: "pixel-array-shape", 4: "grid-rows", 5: "grid-columns",
-           6: "same-pixels", 7: "exact-width", 8: "exact-path", 9: "exact-outside-zero", 10: "exact-columns"}
+           6: "same-pixels", 11: "baseline-ends", 7: "exact-width", 8: "exact-path", 9: "exact-outside-zero", 10: "exact-columns"}
 
 
 def spaces(tier):
@@ -109,6 +116,9 @@ def signature(tr, prog):
     if prog == 2:
         return "result-kind", "returned array is %s but the calls made imply the opposite" % tr["ev"]["kind"]
     k = prog - 10
+    if k == 11:
+        return "baseline-ends", ("the band does not run from the first to the last baseline point: corners of the coordinate grid "
+                                 "(1/16 px) %s, first point %s, last point %s (%d points)" % (tr["corners"], tr["pts"][0], tr["pts"][-1], n))
     return CLAUSES.get(k, "clause%d" % k), "clause '%s' of the returned crop fails (shape %dx%d)" % (
         CLAUSES.get(k, k), tr["ev"]["h"], tr["ev"]["w"])
 
@@ -159,7 +169,9 @@ def run(ctx):
                "zero margin); where the samples of slanted or curved baselines fall and the interpolated pixel values are NOT covered",
                "degenerate = chord < 4 px, zero height, |slope| >= 60 degrees or right-to-left, consecutive points closer than 4 px, "
                "or expected crop width < 2 px",
-               "'same pixels' compared within %d grey levels on a smooth page (cv2.remap rounds positions to 1/32 px)" % TOL)
+               "'same pixels' compared within %d grey levels on a smooth page (cv2.remap rounds positions to 1/32 px)" % TOL,
+               "sessions (long-lived croppers, dense baselines of up to some thousand points) are sampled, not exhaustive; the first / "
+               "last column of the coordinate grid lies within 3 px (along the chord) of the first / last baseline point")
     sp = dict(spaces(ctx.tier))
     selftests(ctx, sp)
     done_selftest = False
@@ -185,6 +197,23 @@ def run(ctx):
                     return tr
                 ctx.selftest_corrupt("Cropper_Trace", good, corrupt, constants=dict(K.tla_constants(b), Level="property", Tol=TOL))
                 done_selftest = True
+    # sessions: history (long-lived objects, a failing call in between) and scale (dense baselines); sampled, trace-validated only
+    sess = K.sessions(ctx.tier, ctx.seed)
+    cases, traces = K.run_sessions(sess)
+    sb = K.bounds("slant")
+    rej = judge(ctx, "sessions", sb, cases, traces)
+    for i, (c, t) in enumerate(zip(cases, traces)):
+        ctx.count(1, ("sessions", i) if t["ev"]["kind"] == "real" and t["ev"]["w"] > 1 else None)
+    ctx.notes["sessions"] = {"sessions": len(sess), "calls": len(cases), "points_per_baseline": sorted({len(c["pts"]) for c in cases}),
+                             "rejected": len(rej)}
+    good = next((t for i, t in enumerate(traces) if i not in {j for j, _ in rej} and t["ev"]["kind"] == "real"
+                 and len(t["pts"]) >= 128 and len(t["corners"]) == 4), None)
+    if good is not None:
+        def shorten(tr):          # the band stops 8 px before the last baseline point
+            tr["corners"][1][0] -= 8 * K.FP
+            tr["corners"][3][0] -= 8 * K.FP
+            return tr
+        ctx.selftest_corrupt("Cropper_Trace", good, shorten, constants=dict(K.tla_constants(sb), Level="property", Tol=TOL))
     ctx.notes["explanation"] = ("TLC exhaustive on Cropper.tla per configuration space (invariants %s, deadlock check); the same "
                                 "configurations executed by pero_ocr.core.crop_engine.EngineLineCropper.crop and validated by Cropper_Trace "
                                 "(property level; exact level only reported as drift)" % INV_GRID)
@@ -193,7 +222,7 @@ def run(ctx):
 def replay(ctx, case):
     b = case["bounds"]
     c = case["case"]
-    tr = K.run_case(c)
+    tr = K.replay_case(c)
     if c.get("ref"):
         tr["ref"] = c["ref"]
     rej = judge(ctx, case["space"], b, [c], [tr])
